@@ -380,27 +380,8 @@ def check(model: Model, run: Run) -> None:
                 run.fail(Finding("I2-option-defaults-are-fresh", cq, f"{f.name}: {why}", f"{c.name}.{f.name} does not get a fresh value per instance ({why}): registrations would leak between sessions", model.loc(c.module, c.node)))
     run.floor("option dataclasses", n_opts, 4)
     # ---- I7: memoised functions hand the same object to every caller -------------------------------------
-    IMMUTABLE = ("str", "bytes", "int", "bool", "float", "None", "re.Pattern", "t.Pattern", "typing.Pattern")
-    n_fn7 = 0
-    for fq, fi in sorted(model.functions.items()):
-        if isinstance(fi.node, ast.Lambda):
-            continue
-        n_fn7 += 1
-        for d in fi.node.decorator_list:
-            dn = norm(d.func if isinstance(d, ast.Call) else d).split(".")[-1]
-            if dn in ("lru_cache", "cache", "cached_property"):
-                ra = norm(fi.node.returns) if fi.node.returns is not None else ""
-                inner = ra
-                for w in ("t.Optional[", "typing.Optional[", "Optional["):
-                    if inner.startswith(w) and inner.endswith("]"):
-                        inner = inner[len(w):-1]
-                ok = inner in IMMUTABLE
-                run.ob("I7-no-memoised-mutable-results", ok, {"function": fq, "returns": ra})
-                if not ok:
-                    run.fail(Finding("I7-no-memoised-mutable-results", fq, f"@{dn} -> {ra or '?'}",
-                                     f"{fi.name} is memoised with @{dn} but returns `{ra or 'an unannotated value'}`: every caller (every session, every parsed definition) receives the same mutable object",
-                                     model.loc(fi.module, fi.node)))
-    run.ob("I7-no-memoised-mutable-results", True, {"functions_scanned": n_fn7})
+    from ..commonrules import memoised_results_are_immutable
+    memoised_results_are_immutable(model, run, "I7-no-memoised-mutable-results", None, "every session, every parsed definition")
     # ---- I3/I4 ------------------------------------------------------------------------------------------
     n_fn = 0
     for mn, m in model.modules.items():
